@@ -892,3 +892,64 @@ def per_event_pure(check: Check, repo: Repo, rule: str = "PER-EVENT-PURE") -> No
         raises = [r for r in walk_body(f) if isinstance(r, ast.Raise)]
         check.ob(rule, f, f"{qualname_of(f) or f.name}: no raise on the per-event path", not raises,
                  "none" if not raises else f"`{unparse(raises[0])[:50]}` (line {raises[0].lineno}): a payload / per-event condition ends the whole stream")
+
+
+def pump_pacing(check: Check, repo: Repo, rule: str = "PUMP-PACING") -> None:
+    from sa.cfg import CFG, no_exc
+
+    check.rule(
+        rule,
+        "WorkQueue._start_stream.pump hands the consumer one batch at a time: after pushing a _StreamItems event it "
+        "waits for that event's `handled` signal on *every* path before it asks the stream queue for the next batch or "
+        "reports the stream as finished. The consumer relies on it when it peeks `queue.is_stopped()` while handling a "
+        "batch (is this the last one? then complete the id). A pump that runs ahead - waiting only 'when the items carry "
+        "work' - lets the first queued batch see a stopped queue: the stream id is completed and released, and the later "
+        "batches are delivered under ids that were never announced",
+    )
+    ci = ClassIndex(repo).get("execution.incremental.work_queue", "WorkQueue")
+    st = ci.methods().get("_start_stream")
+    if st is None:
+        raise AnalysisError("WorkQueue._start_stream not found")
+    pump = next((f for f in ast.walk(st) if isinstance(f, ast.AsyncFunctionDef) and f.name == "pump"), None)
+    if pump is None:
+        raise AnalysisError("WorkQueue._start_stream: pump coroutine not found")
+    cfg = CFG(pump)
+    pushes = [c for c in walk_body(pump) if isinstance(c, ast.Call) and call_name(c).split(".")[-1] == "_push" and c.args and "_StreamItems" in unparse(c.args[0])]
+    waits = [c for c in walk_body(pump) if isinstance(c, ast.Call) and isinstance(c.func, ast.Attribute) and c.func.attr == "wait" and "handled" in unparse(c.func.value)]
+    if not pushes:
+        raise AnalysisError("pump: push of _StreamItems not found")
+    wait_nodes = {n for c in waits for n in cfg.node_for_expr(c)}
+    loop = next((l for l in walk_body(pump) if isinstance(l, ast.AsyncFor)), None)
+    if loop is None:
+        raise AnalysisError("pump: `async for ... in stream.queue.batches()` not found")
+    head = cfg.nodes_of(loop)[0]
+    for p in pushes:
+        start = cfg.node_for_expr(p)[0]
+        path = cfg.find_path(start, lambda nd: nd is head or nd is cfg.exit, follow=no_exc, avoid=lambda nd: nd in wait_nodes)
+        check.ob(rule, p, "pump: every pushed batch is awaited (`await handled.wait()`) before the next one is fetched", path is None,
+                 "the wait is on every path back to the loop head" if path is None else "the pump can run ahead of the consumer: " + cfg.describe_path(path)[-200:])
+
+
+def drain_guarded(check: Check, repo: Repo, rule: str = "DRAIN-GUARDED") -> None:
+    check.rule(
+        rule,
+        "collect_iterator_awaitables drains a *user* iterator on an error path (a streamed source that has just failed; "
+        "a list whose completion failed): the iteration is wrapped in `with suppress_exceptions` (or try/except Exception). "
+        "An iterator that raises again while being drained - a lost connection does, a generator does not - would kill the "
+        "producer task that is cleaning up: the stream's failure is never delivered, its id never completed, and no payload "
+        "with hasNext: false arrives",
+    )
+    fn = repo.func("execution.executor", "collect_iterator_awaitables")
+    p = fn.args.args[0].arg
+    iters = [x for x in ast.walk(fn) if (isinstance(x, (ast.For, ast.comprehension)) and unparse(x.iter) == p)]
+    if not iters:
+        raise AnalysisError("collect_iterator_awaitables: iteration over the iterator not found")
+    for it in iters:
+        guarded = False
+        for a in ancestors(it):
+            if isinstance(a, (ast.With, ast.AsyncWith)) and any("suppress" in unparse(i.context_expr) for i in a.items):
+                guarded = True
+            if isinstance(a, ast.Try) and any(h.type is None or unparse(h.type) in ("Exception", "BaseException") for h in a.handlers):
+                guarded = True
+        check.ob(rule, it if isinstance(it, ast.For) else parent(it), f"collect_iterator_awaitables: iterates `{p}`", guarded,
+                 "under suppress_exceptions / except Exception" if guarded else "a second failure of the source escapes from the clean-up")
